@@ -46,6 +46,11 @@ Definition parse_path (l : list N) : path :=
   | [] => []
   end.
 
+(* a path as fclones holds it: absolute, at least one component below the root, every component a non-empty
+   byte string without '/' and NUL (what a directory entry can be) *)
+Definition comp_ok (c : comp) : Prop := c <> [] /\ Forall (fun b => b <> slash /\ b <> 0 /\ b < 256) c.
+Definition wf_path (p : path) : Prop := exists rest, p = root_c :: rest /\ rest <> [] /\ Forall comp_ok rest.
+
 (* ---------------------------------------------------------------- to_shell_str *)
 Definition W_rm : list N := [114; 109].
 Definition W_mv : list N := [109; 118].
